@@ -10,6 +10,7 @@ import (
 	"path/filepath"
 	"sort"
 	"strings"
+	"time"
 
 	"github.com/Oneledger/protocol/action"
 	aevid "github.com/Oneledger/protocol/action/evidence"
@@ -192,8 +193,34 @@ func diffDumps(a, b [][2][]byte) string {
 	return strings.Join(out, "; ")
 }
 
+// copyDir takes a byte copy of a data directory whose databases are open (the crash point). The
+// application is idle while it runs, but goleveldb's background compaction may still create and
+// delete table files: a copy during which the set of files changed is thrown away and taken again.
 func copyDir(src, dst string) error {
-	return exec.Command("cp", "-a", src, dst).Run()
+	listing := func() string {
+		var sb strings.Builder
+		filepath.Walk(src, func(p string, fi os.FileInfo, err error) error {
+			if err == nil && !fi.IsDir() {
+				fmt.Fprintf(&sb, "%s %d %d\n", p, fi.Size(), fi.ModTime().UnixNano())
+			}
+			return nil
+		})
+		return sb.String()
+	}
+	var err error
+	for try := 0; try < 20; try++ {
+		os.RemoveAll(dst)
+		before := listing()
+		err = exec.Command("cp", "-a", src, dst).Run()
+		if err == nil && listing() == before {
+			return nil
+		}
+		time.Sleep(30 * time.Millisecond)
+	}
+	if err == nil {
+		err = fmt.Errorf("data directory %s kept changing while it was copied", src)
+	}
+	return err
 }
 
 // RunTwin runs the selected shell-property engine.
